@@ -301,6 +301,8 @@ type JSON struct {
 	Kind    string // null bool num str arr obj invalid
 	B       *Term  // bool
 	N       *Term  // num: KInt (integer literal) or KFP
+	NBV     *Term  // num produced from a Go integer: that bit-vector (exact inverse on decode)
+	NBVS    bool
 	S       *Term  // str
 	Elems   []*JSON
 	Keys    []string
@@ -412,9 +414,9 @@ func (e *Engine) scalarJSON(v Value, f pfield, site ssa.Instruction) *JSON {
 	case kBool:
 		return &JSON{Kind: "bool", B: T(v)}
 	case kInt32, kSint32, kSfixed32:
-		return &JSON{Kind: "num", N: intOf(T(v), true)}
+		return &JSON{Kind: "num", N: intOf(T(v), true), NBV: T(v), NBVS: true}
 	case kUint32, kFixed32:
-		return &JSON{Kind: "num", N: intOf(T(v), false)}
+		return &JSON{Kind: "num", N: intOf(T(v), false), NBV: T(v), NBVS: false}
 	case kInt64, kSint64, kSfixed64:
 		return &JSON{Kind: "str", S: intToStr(T(v), true)}
 	case kUint64, kFixed64:
@@ -540,6 +542,12 @@ func (e *Engine) scalarFromJSON(v *JSON, f pfield, site ssa.Instruction) (Value,
 	intField := func(bits int, signed bool) (Value, Value) {
 		switch v.Kind {
 		case "num":
+			if v.NBV != nil && v.NBVS == signed && v.NBV.W <= bits {
+				if signed {
+					return bvSext(v.NBV, bits), nil
+				}
+				return bvZext(v.NBV, bits), nil
+			}
 			if v.N.K != KInt {
 				return bad() // non-integral literals are rejected for integer fields (integral floats: outside the model)
 			}
